@@ -1,6 +1,7 @@
 import CyVerif.Model.C19
 import CyVerif.Model.C19Cmp
 import CyVerif.Model.C19Str
+import CyVerif.Model.C19Int
 /-!
 Line-protocol glue for the C19 models (token decoding / rendering).  No theorem uses this file.
 -/
@@ -253,6 +254,11 @@ def handle : List String → String
     match pBool ba1, pHexOrDash s1, pHexOrDash s2, pBool ne with
     | some ba, some a, some b, some n => s!"ok {b2s (bytesEqNe ba a b n)}"
     | _, _, _, _ => "bad-op"
+  | ["intcmp", op, negA, dsA, negB, dsB] =>
+    -- digits most significant first, base 2^30; `-` = no digits (zero)
+    match pCmpOp op, pBool negA, pChars dsA, pBool negB, pChars dsB with
+    | some op, some na, some da, some nb, some db => s!"ok {b2s (compareIntInt (2 ^ 30) op ⟨na, da⟩ ⟨nb, db⟩)}"
+    | _, _, _, _, _ => "bad-op"
   | ["bord", fix, op, s1, s2] =>
     match pBool fix, pOrd op, pHexOrDash s1, pHexOrDash s2 with
     | some f, some op, some a, some b => s!"ok {b2s (bytesOrd f op a b)}"
